@@ -178,7 +178,15 @@ Definition lit_ok (c : Z) : bool :=
   (32 <=? c) && (c <? 55296) && negb (is_syntax c) && negb (is_line_term c).
 (* ... and raw inside a class: additionally not - (range operator; ^ [ ] \ are excluded by
    lit_ok); / may stand raw inside a class, also in a literal (7.8.5 RegularExpressionClassChar) *)
-Definition clit_ok (c : Z) : bool := (lit_ok c || (c =? 47)) && negb (c =? 45).
+Definition clit_ok (c : Z) : bool := (lit_ok c || (c =? 47) || (c =? 91)) && negb (c =? 45).
+(* [ is an ordinary ClassAtom (15.10.1: classes do not nest), also in a literal;
+   only "[:" is kept out of the subset: the engine reads it as the opener of a
+   POSIX bracket expression *)
+Fixpoint has_posix_opener (l : list Z) : bool :=
+  match l with
+  | a :: ((b :: _) as t) => ((a =? 91) && (b =? 58)) || has_posix_opener t
+  | _ => false
+  end.
 (* punctuation that is written with an identity escape *)
 Definition idesc_ok (c : Z) : bool := is_syntax c || (c =? 45).
 Definition ctl_ok (k : Z) : bool := (k =? 102) || (k =? 110) || (k =? 114) || (k =? 116) || (k =? 118).
@@ -230,7 +238,8 @@ Fixpoint wf (r : re) : bool :=
   | REmpty | RDot | RBol | REol | RWordB | RNWordB => true
   | RCh c => wf_ch false c
   | REscCls k => esccls_ok k
-  | RClass _ items => forallb wf_item items && negb (match items with [] => true | _ => false end)
+  | RClass _ items => forallb wf_item items && negb (match items with [] => true | _ => false end) &&
+                      negb (has_posix_opener (flat_map js_item items))
   | RGroup r | RNcGroup r | RLook _ r => wf r
   | RBackref n => (1 <=? n) && (n <=? 9)
   | RSeq a b => wf a && wf b && negb (is_alt a) && negb (is_alt b) &&
